@@ -623,8 +623,15 @@ func TestWrapIsolationAndShape(t *testing.T) {
 			{"/sc.go.test.TestApi/ClientStream", grpc.StreamDesc{ServerStreams: true}},
 			{"/sc.go.test.TestApi/BidiStream", grpc.StreamDesc{ServerStreams: true}},
 			{"/sc.go.test.TestApi/Unary", grpc.StreamDesc{ServerStreams: true}},
+			{"/sc.go.test.TestApi/Unary", grpc.StreamDesc{ClientStreams: true}},
+			{"/sc.go.test.TestApi/Unary", grpc.StreamDesc{ClientStreams: true, ServerStreams: true}},
+			{"/sc.go.test.TestApi/ClientStream", grpc.StreamDesc{ClientStreams: true, ServerStreams: true}},
+			{"/sc.go.test.TestApi/BidiStream", grpc.StreamDesc{ClientStreams: true}},
 		}).Draw(t, "wrongShape")
-		if _, err = wrapConn.NewStream(context.Background(), &wrongShape.desc, wrongShape.method); status.Code(err) != codes.Internal {
+		sctx, scancel := context.WithCancel(context.Background())
+		_, err = wrapConn.NewStream(sctx, &wrongShape.desc, wrongShape.method)
+		scancel() // whatever was started for a stream that should not exist must not outlive this case
+		if status.Code(err) != codes.Internal {
 			t.Fatalf("stream shape mismatch on %s with %+v: %v, want Internal", wrongShape.method, wrongShape.desc, err)
 		}
 		if n := lib.WaitGoroutines(0, 3*time.Second, wrapFrame); n != 0 {
